@@ -10,6 +10,7 @@
                   <decimals> <ils> <ord?: none | k (key text)*k> <segH?> <segW?> <textH?>
     legend  cat   <V> v*V <k> d*k <nc> (r g b)*nc <names?: none | k name*k> <contColors?> <contLegend>
                   <vertical> <decimals> <ils?> <segH?> <segW?> <textH?>
+    graphic <minx> <miny> <maxx> <maxy> plain|cat <legend arguments as above>
     fmt <x> <n>                                            -> `'%.nf' % x`
 -/
 import Ladybug.DrvCore
@@ -150,6 +151,29 @@ def runLegend (r : Option ((List Rat × Except Err Par) × List String)) : Strin
     | .error e => showErr e
     | .ok l => showLegend l
 
+/-- `graphic <minx> <miny> <maxx> <maxy> plain|cat <legend arguments>` -/
+def runGraphic (box : Option (Rat × Rat × Rat × Rat))
+    (r : Option ((List Rat × Except Err Par) × List String)) : String :=
+  match box, r with
+  | some (x0, y0, x1, y1), some ((vals, .ok p), _) =>
+    match Graphic.make vals p x0 y0 x1 y1 with
+    | .error e => showErr e
+    | .ok g =>
+      " | ".intercalate [
+        "ok " ++ showE showColors g.valueColors,
+        showE showColors g.legend.segmentColors,
+        s!"{showRat g.legend.segH} {showRat g.legend.segW} {showRat g.legend.textH}",
+        toString g.legend.textPoints.length]
+  | some _, some ((_, .error e), _) => showErr e
+  | _, _ => "bad-op"
+
+def box? (a b c d : String) : Option (Rat × Rat × Rat × Rat) := do
+  let a ← rat? a
+  let b ← rat? b
+  let c ← rat? c
+  let d ← rat? d
+  pure (a, b, c, d)
+
 def handle (toks : List String) : String :=
   match toks with
   | "domain" :: rest =>
@@ -176,6 +200,8 @@ def handle (toks : List String) : String :=
       | .error e => showErr e
       | .ok cr => "ok " ++ " ; ".intercalate (vals.map (showExactOf cr))
     | none => "bad-op"
+  | "graphic" :: a :: b :: c :: d :: "plain" :: rest => runGraphic (box? a b c d) (pPlain rest)
+  | "graphic" :: a :: b :: c :: d :: "cat" :: rest => runGraphic (box? a b c d) (pCat rest)
   | "legend" :: "plain" :: rest => runLegend (pPlain rest)
   | "legend" :: "cat" :: rest => runLegend (pCat rest)
   | ["fmt", x, n] =>
